@@ -102,7 +102,7 @@ def coq_deps(vfile):
             txt = open(os.path.join(COQ, f)).read()
         except OSError:
             continue
-        for m in re.finditer(r"From\s+Ergo\s+Require\s+(?:Import|Export)\s+([\w.'\s]+?)\.(?:\s|$)", txt):
+        for m in re.finditer(r"From\s+Ergo\s+Require\s+(?:Import\s+|Export\s+)?([\w.'\s]+?)\.(?:\s|$)", txt):
             for mod in m.group(1).split():
                 todo.append("theories/" + mod.replace(".", "/") + ".v")
         for m in re.finditer(r"Require\s+(?:Import|Export)\s+((?:Ergo\.[\w.']+\s*)+)\.", txt):
